@@ -3,11 +3,13 @@
 afterwards; evidence/replays go to a scratch dir, never to /verif/evidence) and records in seeded/<id>/meta.json which
 checks report a violation.  usage: tools/seedrun.py [seed ids...]"""
 import json, subprocess, sys, os, shutil, tempfile
+sys.stdout.reconfigure(line_buffering=True)
 V='/verif'
 # the run works from a snapshot of the binary, specs and known findings so that engine work can go on meanwhile
 VS=tempfile.mkdtemp(prefix='seedrun-verif-')
 shutil.copytree(V+'/specs',VS+'/specs'); shutil.copy(V+'/known_findings.json',VS); shutil.copy(V+'/properties.jsonl',VS); shutil.copy(V+'/MANIFEST.json',VS)
 os.makedirs(VS+'/bin'); shutil.copy(V+'/bin/vcgo',VS+'/bin/vcgo'); BIN=VS+'/bin/vcgo'
+PIN=subprocess.run(['git','-C','/repo','rev-parse','HEAD'],capture_output=True,text=True).stdout.strip()  # the whole run uses this commit of /repo
 claimed=[c['property_id'] for c in json.load(open(V+'/MANIFEST.json'))['checks']]
 rows=[l.rstrip('\n').split('\t') for l in open(V+'/tools/seeds.tsv') if l.strip()]
 want=set(sys.argv[1:])
@@ -18,7 +20,7 @@ for r in rows:
     wt=tempfile.mkdtemp(prefix='seedrun-wt-'); os.rmdir(wt)
     out=tempfile.mkdtemp(prefix='seedrun-out-')
     try:
-        subprocess.run(['git','-C','/repo','worktree','add','--detach',wt,'HEAD'],capture_output=True,check=True)
+        subprocess.run(['git','-C','/repo','worktree','add','--detach',wt,PIN],capture_output=True,check=True)
         a=subprocess.run(['git','-C',wt,'apply',V+'/seeded/'+sid+'/patch.diff'],capture_output=True,text=True)
         if a.returncode!=0:
             print(sid,'PATCH DOES NOT APPLY',a.stderr.strip()[:200]); continue
@@ -37,7 +39,11 @@ for r in rows:
                 for mm in re.finditer(r'\[((?:C\d\d ?)+)\]', open(cf).read()):
                     rel.update(mm.group(1).split())
         if os.environ.get('SEEDRUN_ALL'): rel=set(claimed)
-        for p in [q for q in claimed if q in rel]:
+        own=m0.get('property','')
+        order=[q for q in claimed if q==own]+[q for q in claimed if q in rel and q!=own]
+        for p in order:
+            # two phases: the seed's own property first; the other relevant checks only if that one does not report it
+            if p!=own and caught and not os.environ.get('SEEDRUN_ALL'): break
             res=subprocess.run([BIN,'check','-verif',VS,'-repo',wt,'-out',out,'-prop',p,'-tier','quick','-noreplay'],capture_output=True,text=True,env=env)
             viol=[l for l in res.stdout.split('\n') if l.startswith('VIOLATION')]
             err=[l for l in res.stdout.split('\n') if l.startswith('ERROR')]
@@ -54,7 +60,7 @@ for r in rows:
                 caught[p]={'violations':len(viol),'definite':definite,'obligations':names[:6],'errors':err[:2]}
         m=json.load(open(V+'/seeded/'+sid+'/meta.json'))
         m['caught_by']=caught if caught else {}
-        m['caught_by_note']='quick checks of %s run on the patched tree (the claimed checks that cover the touched packages); {} = none of them reports it'%(','.join(q for q in claimed if q in rel))
+        m['caught_by_note']='quick checks run on the patched tree: the check of the seeded property first, the other claimed checks that cover the touched packages (%s) only when that one does not report the change; {} = none of them reports it'%(','.join(q for q in claimed if q in rel))
         json.dump(m,open(V+'/seeded/'+sid+'/meta.json','w'),indent=1)
         print(sid,'->',{k:v['violations'] for k,v in caught.items()} or 'MISSED')
     finally:
